@@ -372,13 +372,13 @@ impl SimpleSelector {
                         if complex.components.len() != 1 {
                             return false;
                         };
-                        complex
-                            .components
-                            .first()
-                            .unwrap()
-                            .as_compound()
-                            .components
-                            .contains(self)
+                        // a lone combinator (`:is(a, >)`) is not a compound selector
+                        match complex.components.first() {
+                            Some(ComplexSelectorComponent::Compound(compound)) => {
+                                compound.components.contains(self)
+                            }
+                            _ => false,
+                        }
                     });
                 }
                 false
